@@ -188,6 +188,26 @@ static ABT_thread up_pop_wait(ABT_pool pool, double secs, ABT_pool_context ctx)
     (void)secs;
     return up_pop(pool, ctx);
 }
+/* optional init/free callbacks: each runs exactly once per pool; init leaves a token in the pool's
+ * user data which every later reader finds unchanged */
+static long up_inits, up_pool_frees;
+static int up_tokens[WL_MAX_POOLS];
+static int up_init(ABT_pool pool, ABT_pool_config cfg)
+{
+    (void)cfg;
+    int k = (int)(up_inits++ % WL_MAX_POOLS);
+    up_tokens[k] = 0x5eed + k;
+    ABT_OK(ABT_pool_set_data(pool, &up_tokens[k]));
+    return ABT_SUCCESS;
+}
+static void up_free_pool(ABT_pool pool)
+{
+    void *d = NULL;
+    ABT_OK(ABT_pool_get_data(pool, &d));
+    SIM_CHECK(d >= (void *)&up_tokens[0] && d < (void *)&up_tokens[WL_MAX_POOLS], "upool:pool-data", "the pool's user data changed between its init and free callbacks");
+    SIM_CHECK(UPQ[upq_index(pool)].n == 0, "upool:freed-nonempty", "the free callback of a user pool ran while %zu units are queued in it", UPQ[upq_index(pool)].n);
+    up_pool_frees++;
+}
 static ABT_pool mk_user_pool(void)
 {
     ABT_pool_user_def def;
@@ -203,11 +223,23 @@ static ABT_pool mk_user_pool(void)
     }
     if (plan_bool())
         ABT_OK(ABT_pool_user_def_set_pop_wait(def, up_pop_wait));
+    int with_init = plan_bool();
+    if (with_init) {
+        ABT_OK(ABT_pool_user_def_set_init(def, up_init));
+        ABT_OK(ABT_pool_user_def_set_free(def, up_free_pool));
+    }
+    long inits0 = up_inits;
     ABT_OK(ABT_pool_config_create(&cfg));
     ABT_OK(ABT_pool_config_set(cfg, ABT_pool_config_automatic.key, ABT_pool_config_automatic.type, &automatic));
     ABT_OK(ABT_pool_create(def, cfg, &p));
     ABT_OK(ABT_pool_config_free(&cfg));
     ABT_OK(ABT_pool_user_def_free(&def));
+    SIM_CHECK(up_inits == inits0 + with_init, "upool:init-callback", "ABT_pool_create ran the pool's init callback %ld times", up_inits - inits0);
+    {
+        ABT_pool_access acc;
+        ABT_OK(ABT_pool_get_access(p, &acc));
+        SIM_CHECK(acc == ABT_POOL_ACCESS_MPMC, "upool:access", "a user-defined pool reports access type %d", (int)acc);
+    }
     SIM_CHECK(nupq < WL_MAX_POOLS, "infra:too-many-user-pools", "user pool table full");
     memset(&UPQ[nupq], 0, sizeof UPQ[0]);
     UPQ[nupq++].pool = p;
@@ -281,6 +313,18 @@ static int lp_remove(ABT_pool pool, ABT_unit unit)
     u->next = NULL;
     return ABT_SUCCESS;
 }
+static long lp_pool_frees;
+static int lp_free_pool(ABT_pool pool)
+{
+    (void)pool;
+    lp_pool_frees++;
+    return ABT_SUCCESS;
+}
+static ABT_unit lp_pop_timedwait(ABT_pool pool, double abstime)
+{
+    (void)abstime; /* "waits until": returning at once is within the contract */
+    return lp_pop(pool);
+}
 ABT_pool wl_make_legacy_pool(int failing_remove)
 {
     ABT_pool_def def;
@@ -295,6 +339,8 @@ ABT_pool wl_make_legacy_pool(int failing_remove)
     def.p_push = lp_push;
     def.p_pop = lp_pop;
     def.p_remove = lp_remove;
+    def.p_free = lp_free_pool;
+    def.p_pop_timedwait = lp_pop_timedwait;
     lp_fail_remove = failing_remove;
     ABT_OK(ABT_pool_create(&def, ABT_POOL_CONFIG_NULL, &p));
     SIM_CHECK(nupq < WL_MAX_POOLS, "infra:too-many-user-pools", "user pool table full");
@@ -455,10 +501,17 @@ void wl_rt_start(wl_rt *rt, int flags)
     memset(rt, 0, sizeof *rt);
     nupq = 0;
     up_creates = up_frees = 0;
+    up_inits = up_pool_frees = 0;
     us_units_run = 0;
     us_migr_pool_calls = 0;
     wl_env_swarm();
     ABT_OK(ABT_init(0, NULL));
+    if (plan_n(8) == 0) {
+        /* initialisation is counted: an inner ABT_init / ABT_finalize pair changes nothing */
+        ABT_OK(ABT_init(0, NULL));
+        ABT_OK(ABT_finalize());
+        SIM_CHECK(ABT_initialized() == ABT_SUCCESS, "init:inner-finalize-tore-down", "ABT_initialized() says no after the inner ABT_finalize of a nested initialisation");
+    }
     int maxes = sim_limit("es", 4);
     int lo = (flags & WL_RT_MIN2ES) ? 2 : 1;
     if (maxes < lo)
@@ -506,6 +559,28 @@ void wl_rt_start(wl_rt *rt, int flags)
     for (int e = 1; e < nes; e++) {
         ABT_pool ps[2];
         int n = 0;
+        if (topo == 0 && !(flags & WL_RT_FIFO_ONLY) && plan_n(6) == 0) {
+            /* the stream's pools are created by the library (no pool list): the kind follows from
+             * the scheduler (FIFO_WAIT for BASIC_WAIT, several FIFO pools for PRIO); units go to
+             * the first one */
+            int sk = pick_sched(flags | WL_RT_PREDEF_SCHEDS);
+            rt->sched_kind[e] = sk;
+            if (plan_bool())
+                ABT_OK(ABT_xstream_create_basic(sched_predefs[sk], 0, NULL, ABT_SCHED_CONFIG_NULL, &rt->xs[e]));
+            else {
+                ABT_sched sc;
+                ABT_OK(ABT_sched_create_basic(sched_predefs[sk], 0, NULL, ABT_SCHED_CONFIG_NULL, &sc));
+                ABT_OK(ABT_xstream_create(sc, &rt->xs[e]));
+            }
+            ABT_pool p;
+            ABT_OK(ABT_xstream_get_main_pools(rt->xs[e], 1, &p));
+            int i = rt->npools++;
+            rt->pools[i] = p;
+            rt->pool_es[i] = e;
+            rt->pool_kind[i] = sk == 1 ? 1 : 0;
+            rt->es_first_pool[e] = i;
+            continue;
+        }
         if (topo == 0 || topo == 2) {
             ps[n++] = mkpool(rt, flags, e);
             rt->es_first_pool[e] = rt->npools - 1;
@@ -542,6 +617,7 @@ void wl_rt_stop(wl_rt *rt)
     sim_progress();
     sim_ledger_check_empty("after ABT_finalize");
     SIM_CHECK(up_creates == up_frees, "upool:unit-leaked", "user pools: create_unit was called %ld times, free_unit %ld times by the end of ABT_finalize", up_creates, up_frees);
+    SIM_CHECK(up_inits == up_pool_frees, "upool:free-callback", "user pools: the init callback ran %ld times, the free callback %ld times by the end of ABT_finalize", up_inits, up_pool_frees);
     if (nupq)
         sim_count("rt.user_pool_units", (uint64_t)up_creates);
     if (us_units_run)
